@@ -535,7 +535,9 @@ def oracle_protocol(ctx, r, hi, stats):
                 ctx.violation('C06: closing a closed packet is not a no-op', rep)
                 return
         if opn and call[0] == 'trace' and before is not None and before[9] == 1 and after[5] == before[5]:
-            if at <= off:
+            # (when the record filled its packet exactly, an eager platform has handed that packet over and
+            # opened the next one, which is empty)
+            if at <= off and not (h.get('eager') and any(x[0] == 2 for x in evs)):
                 ctx.violation('C06: packet reported empty after a record was appended', rep)
                 return
         if call[0] == 'fini' and after[9] == 1 and after[7] == 1 and at > off:
